@@ -296,6 +296,11 @@ def evaluate(op, a, out):
                 r = evaluate("get_d", a[2 * j:2 * j + 2], out[j:j + 1])
                 if r: return r
             return None
+        if op in ("cmul_2exp", "cdiv_2exp", "cmul_eq_2exp", "cdiv_eq_2exp"):
+            for j in (0, 1):
+                r = evaluate(op[1:], a[2 * j:2 * j + 2] + [a[4]], out[2 * j:2 * j + 2])
+                if r: return r
+            return None
         if op[0] == "c":
             return evaluate_complex(op, a, out)
     except (ValueError, IndexError) as ex:
@@ -487,6 +492,7 @@ def gen_case(rng):
         q = rng.random()
         i = rng.randint(0, 200) if q < 0.5 else (rng.choice([1 << 31, 1 << 32, 1 << 62, LMAX, 1 << 63, (1 << 64) - 1])
                                                  if q < 0.7 else rng.getrandbits(64))
+        if rng.random() < 0.2: return "c%s %s %d" % (op, fc((gen_r(rng), gen_r(rng))), i)
         return "%s %s %d" % (op, fr(gen_r(rng)), i)
     if r < 0.76:
         q = rng.random()
@@ -595,6 +601,12 @@ def targeted_cases():
             for e in [LMAX, LMAX - 1, LMIN, LMIN + 1]:
                 for m in [H, A, T | NEG]:
                     out.append("%s %s %016x" % (op, fc(((m, e), (T, 5))), d))
+    for op in WITH_UL:
+        for i in [0, 1, 5, LMAX, LMAX + 1, 1 << 63, (1 << 64) - 1, (1 << 64) - 2, 1 << 62]:
+            for e in [0, -5, 5, LMAX, LMAX - 1, LMIN, LMIN + 1, -(1 << 62), 1 << 62, -3 - (1 << 63) + (1 << 63)]:
+                for m in [H, A | NEG, 0, NEG]:
+                    out.append("%s %s %d" % (op, fr((m, e if m & ~NEG else 0)), i))
+                out.append("c%s %s %d" % (op, fc(((T, e), (0, 0))), i))
     for e in [LMAX, LMAX - 1, (1 << 62), LMIN, -(1 << 62)]:
         out.append("csqr %s" % fc(((T, e), (A, e)))); out.append("csqr_eq %s" % fc(((T, e), (A, e))))
         out.append("csqr %s" % fc(((T, e), (A, 3)))); out.append("csqr %s" % fc(((T, 3), (A, e))))
